@@ -82,6 +82,7 @@ EXTRA_SNIPPETS = {
     "refNob": ("Nobelmanxo v. Acmexo, 520 U.S. 17 (1997). In Nobelmanxo at 19 we see", "ReferenceCitation", 0),
     "supraNob": ("Nobelmanxo, supra, at 20.", "SupraCitation", 0),
     # references to the two roman-page cases of one volume (same party names: only the page tells them apart)
+    "supraAvol": ("Alphaxo, 1 supra, at 101.", "SupraCitation", 0),         # a supra written with the volume of one candidate
     "supraIota": ("Iotaxo, supra, at xiii.", "SupraCitation", 0),
     "shortIota": ("Iotaxo, 3 U.S. at xiii.", "ShortCaseCitation", 0),
     "supraPunct": ("the rule ..., supra, at 4.", "SupraCitation", 0),      # antecedent of punctuation only
@@ -136,7 +137,7 @@ FOCUS = {
 FOCUS["antecedent"] = ["fullD", "fullE", "fullMc", "fullDon", "supraEdu", "supraRoe", "supraDon", "supraBoard",
                        "shortEdu", "shortSmith", "supraPunct"]
 FOCUS["periods"] = ["fullNLRB", "fullNLRBplain", "supraNLRB", "shortNLRB", "supraNLRBplain", "idValid"]
-FOCUS["reference"] = ["fullA", "fullA2", "fullB", "refA", "refA2", "refAlpha", "supraA", "shortA_named", "idNoPin"]
+FOCUS["reference"] = ["fullA", "fullA2", "fullB", "refA", "refA2", "refAlpha", "supraA", "supraAvol", "shortA_named", "idNoPin"]
 FOCUS["name_only"] = ["fullAnte", "fullNob2", "refNob", "supraNob", "fullA", "refA"]
 FOCUS["roman"] = ["fullRoman", "fullRoman2", "supraIota", "shortIota", "idNoPin", "idRoman"]
 FOCUS_LMAX = {3: 4, 5: 5}     # base bound -> focus bound
@@ -409,7 +410,7 @@ def resolution_doc(rng):
 
 COLLISION_KINDS = ["fullA", "fullA2", "fullAdup", "fullB", "fullD", "fullE", "fullMc", "fullDon", "supraA", "supraB", "supraEdu",
                    "supraRoe", "supraDon", "supraBoard", "shortEdu", "shortSmith", "shortA_named", "refA", "refA2", "refAlpha",
-                   "idValid", "idNoPin", "fullAnte", "fullNob2", "refNob", "supraNob"]
+                   "idValid", "idNoPin", "fullAnte", "fullNob2", "refNob", "supraNob", "supraAvol"]
 
 
 def collision_sequences(rng, n):
